@@ -27,6 +27,7 @@ type HashV struct {
 	Key    []*Term
 	Keyed  bool
 	Segs   []hashSeg
+	Squeezed bool
 }
 
 func (h *HashV) Copy() Value {
@@ -236,6 +237,40 @@ func (ex *Exec) hashMethod(s *State, name string, args []Value) (Value, *Fork, e
 		pre, _ := args[1].(SliceV)
 		r, err := ex.appendElems(s, pre, vals, types.Typ[types.Uint8])
 		return r, nil, err
+	case "Absorb":
+		h, err := ex.hashObj(s, args[0], true)
+		if err != nil {
+			return nil, nil, err
+		}
+		sg, err := ex.bytesArg(s, args[1])
+		if err != nil {
+			return nil, nil, err
+		}
+		if len(sg.B)%243 != 0 || len(sg.B) == 0 {
+			return nil, nil, unsupported("curl model: Absorb of %d trits", len(sg.B))
+		}
+		h.Segs = append(h.Segs, sg)
+		return IfaceV{}, nil, nil
+	case "Squeeze", "MustSqueeze":
+		h, err := ex.hashObj(s, args[0], true)
+		if err != nil {
+			return nil, nil, err
+		}
+		n := args[1].(*Term)
+		if !n.IsConst() || int(n.U) != h.OutLen || h.Squeezed {
+			return nil, nil, unsupported("curl model: only one Squeeze of %d trits is modelled", h.OutLen)
+		}
+		h.Squeezed = true
+		d := ex.digestBytes(h)
+		// contract of the sponge: the output consists of trits
+		for _, b := range d {
+			s.PC = append(s.PC, c.BOr(c.Eq(b, c.BV(8, 0)), c.Eq(b, c.BV(8, 1)), c.Eq(b, c.BV(8, 0xFF))))
+		}
+		sl := ex.newByteSlice(s, d)
+		if name == "MustSqueeze" {
+			return sl, nil, nil
+		}
+		return TupleV{sl, IfaceV{}}, nil, nil
 	case "Reset":
 		h, err := ex.hashObj(s, args[0], true)
 		if err != nil {
@@ -283,6 +318,9 @@ func registerHashModels(ex *Exec) {
 	}
 	m["golang.org/x/crypto/ripemd160.New"] = func(ex *Exec, s *State, cc *ssa.CallCommon, a []Value) (Value, *Fork, error) {
 		return ex.newHash(s, "ripemd160", 20, 64, nil, false), nil, nil
+	}
+	m["github.com/iotaledger/iota.go/curl.NewCurlP81"] = func(ex *Exec, s *State, cc *ssa.CallCommon, a []Value) (Value, *Fork, error) {
+		return ex.newHash(s, "curlp81", 243, 243, nil, false), nil, nil
 	}
 	m["crypto/sha256.Sum256"] = func(ex *Exec, s *State, cc *ssa.CallCommon, a []Value) (Value, *Fork, error) {
 		v, err := ex.sumArray(s, "sha256", 32, a[0])
